@@ -497,6 +497,11 @@ impl Circuit for WitnessCircuit {
             // one row violated: the product wire gets an unrelated value
             c.verif_set_witness(m, self.e);
         }
+        if self.scenario == 3 {
+            // a public input on a row whose arithmetic selector is zero (custom gate with no
+            // selector set): the row identity is PI = 0, violated by every e != 0
+            c.append_custom_gate(Constraint::new().public(self.e));
+        }
         Ok(())
     }
 }
@@ -516,7 +521,9 @@ pub fn run_prove_w(ctx: &mut Ctx, args: &[String]) {
     let mut srs_rng = ScriptedRng::with_prefix(ctx, "srs", 8);
     let pp = PublicParameters::setup(32, &mut srs_rng).expect("setup");
     let (prover, verifier) =
-        Compiler::compile_with_circuit(&pp, b"verif-prove-w", &WitnessCircuit::default()).expect("compile");
+        Compiler::compile_with_circuit(&pp, b"verif-prove-w",
+                                       &WitnessCircuit { scenario: if scenario == 3 { 3 } else { 0 }, ..WitnessCircuit::default() })
+            .expect("compile");
     let inst = WitnessCircuit { scenario, a: ctx.var("wa"), b: ctx.var("wb"), e: ctx.var("we") };
     let all = scenario != 0;
     crate::kernels::with_paths(ctx, "prove", all, move |ctx| {
